@@ -117,18 +117,19 @@ func ident(s string) string {
 }
 
 type fn struct {
-	spec    Spec
-	pkg     *packages.Package
-	decl    *ast.FuncDecl
-	free    []string          // free terms, in order of first occurrence (Lean names)
-	freeT   map[string]string // Lean name -> source text
-	freeK   map[string]kind
-	freeN   map[string]string   // Lean name -> normalised definition (parameters by position, local aliases expanded)
-	alias   map[string]ast.Expr // opaque local variable -> the expression it was defined as
-	parIx   map[string]int      // parameter / receiver name -> position
-	calls   map[string]bool     // listed functions called (Lean names)
-	skipped []string            // calls made for an effect the model does not carry
-	tmp     int
+	spec      Spec
+	pkg       *packages.Package
+	decl      *ast.FuncDecl
+	free      []string          // free terms, in order of first occurrence (Lean names)
+	freeT     map[string]string // Lean name -> source text
+	freeK     map[string]kind
+	freeN     map[string]string   // Lean name -> normalised definition (parameters by position, local aliases expanded)
+	alias     map[string]ast.Expr // opaque local variable -> the expression it was defined as
+	parIx     map[string]int      // parameter / receiver name -> position
+	calls     map[string]bool     // listed functions called (Lean names)
+	skipped   []string            // calls made for an effect the model does not carry
+	prefixLen int                 // Prefix mode: how many top-level statements were translated
+	tmp       int
 }
 
 type tr struct {
@@ -226,6 +227,8 @@ func (t *tr) norm(e ast.Expr, depth int) string {
 		return t.norm(x.X, depth+1)
 	case *ast.UnaryExpr:
 		return x.Op.String() + t.norm(x.X, depth+1)
+	case *ast.BinaryExpr:
+		return t.norm(x.X, depth+1) + " " + x.Op.String() + " " + t.norm(x.Y, depth+1)
 	}
 	return t.text(e)
 }
@@ -354,6 +357,9 @@ func (t *tr) expr(b *block, e ast.Expr) string {
 		}
 		t.bad(e, "unary operator")
 	case *ast.BinaryExpr:
+		if (x.Op == token.EQL || x.Op == token.NEQ) && kindOf(t.typeOf(x.X)) == kString && t.opaqueArg(x.X) && t.opaqueArg(x.Y) {
+			return t.freeTerm(e) // a comparison of two strings read from outside (denoms): a free Boolean
+		}
 		l := t.expr(b, x.X)
 		before := len(b.lines)
 		r := t.expr(b, x.Y)
@@ -719,7 +725,9 @@ func (t *tr) ret(b *block, r *ast.ReturnStmt, pending string) {
 	if t.f.spec.Effects {
 		vals = append(vals, sendsVar)
 	}
-	if len(vals) == 1 {
+	if len(vals) == 0 {
+		b.add("pure ()")
+	} else if len(vals) == 1 {
 		b.add("pure " + vals[0])
 	} else {
 		b.add("pure (" + strings.Join(vals, ", ") + ")")
@@ -1117,7 +1125,34 @@ func (t *tr) function() string {
 	if f.spec.Effects {
 		pre = append(pre, fmt.Sprintf("let %s : List (String × String × Int) := []", sendsVar))
 	}
-	body := append(pre, t.stmts(f.decl.Body.List, nil)...)
+	var body []string
+	if f.spec.Prefix {
+		// the guards in front of a function's effects: the longest prefix of its statements the translator understands; reaching its end
+		// is `pure ()` ("not refused")
+		done := false
+		for n := len(f.decl.Body.List); n >= 1 && !done; n-- {
+			func() {
+				defer func() {
+					if r := recover(); r != nil {
+						if _, ok := r.(translErr); !ok {
+							panic(r)
+						}
+					}
+				}()
+				f.free, f.freeT, f.freeK, f.freeN = nil, map[string]string{}, map[string]kind{}, map[string]string{}
+				f.alias, f.skipped, f.tmp = map[string]ast.Expr{}, nil, 0
+				lines := t.stmts(f.decl.Body.List[:n], []string{"pure ()"})
+				body = append(pre, lines...)
+				f.prefixLen = n
+				done = true
+			}()
+		}
+		if !done {
+			panic(translErr{f.spec.Func + ": no translatable prefix"})
+		}
+	} else {
+		body = append(pre, t.stmts(f.decl.Body.List, nil)...)
+	}
 	var rts []string
 	if r := f.decl.Type.Results; r != nil {
 		for _, fld := range r.List {
@@ -1141,7 +1176,13 @@ func (t *tr) function() string {
 	if f.spec.Effects {
 		rts = append(rts, "List (String × String × Int)")
 	}
+	if f.spec.Prefix {
+		rts = nil
+	}
 	rt := strings.Join(rts, " × ")
+	if len(rts) == 0 {
+		rt = "Unit"
+	}
 	if len(rts) > 1 {
 		rt = "(" + rt + ")"
 	}
@@ -1150,6 +1191,9 @@ func (t *tr) function() string {
 	out = append(out, fmt.Sprintf("/-- `%s` (%s), translated from the source. -/", f.spec.Func, strings.TrimPrefix(pos.Filename, os.Getenv("VERIF_REPO_ABS")+"/")))
 	for _, n := range f.free {
 		out = append(out, fmt.Sprintf("-- free term `%s` = %s", n, f.freeT[n]))
+	}
+	if f.spec.Prefix {
+		out = append(out, fmt.Sprintf("-- PREFIX: the first %d of %d top-level statements (the guards in front of the effects)", f.prefixLen, len(f.decl.Body.List)))
 	}
 	out = append(out, fmt.Sprintf("def %s %s : Except Err %s := do", f.spec.Lean, strings.Join(params, " "), rt))
 	for _, l := range body {
